@@ -27,7 +27,7 @@ def cur():
 R, I, B = z3.RealSort(), z3.IntSort(), z3.BoolSort()
 
 # ---- T2 uninterpreted real functions
-UF = {name: z3.Function(name, R, R) for name in ("exp", "log", "tanh", "arctanh", "sqrt")}
+UF = {name: z3.Function("r_" + name, R, R) for name in ("exp", "log", "tanh", "arctanh", "sqrt")}  # r_ prefix: cvc5 reserves exp/sqrt
 
 
 def lift(v):
